@@ -1,3 +1,4 @@
+import RedoModel.Props.C10b
 import RedoModel.Lemmas.Deps
 import RedoModel.Lemmas.DepsSoundK8
 import RedoModel.Lemmas.DepsSoundK0b
